@@ -55,13 +55,32 @@ def judge_ckd_priv(ctx, case):
     xk, node = _mk_parent(case)
     i = case["index"]
     exp = rb32.ckd_priv(xk, i)
+    via = case.get("via", "ckd")
     try:
-        child = node.ckd(index=i)
+        if via == "derive_path":
+            child = node.derive_path(index_list=[i])
+        elif via == "generate_children":
+            child = node.generate_children(interval=(i, i + 1))[0]
+        elif via == "wallet.by_path" and node.depth == 0:
+            from btc_hd_wallet.base_wallet import BaseWallet
+            from ..ref import path as rpath
+            child = BaseWallet(master=node, testnet=case["testnet"]).by_path(rpath.fmt([i], "m"))
+        else:
+            child = node.ckd(index=i)
     except Exception as e:  # noqa
         return ctx.judge("ckd_priv", False, case, exp.fields(), e, cls=_cls(case), outcome="raised",
                          mech="C01.ckd_priv.raised")
     bad = bridge.compare_node(child, exp, case["testnet"], True)
     bad += bridge.compare_strings(child, exp, case["testnet"], True)
+    if not bad and case.get("all_versions"):
+        # every SLIP-132 flavour of the derived node, asked on the SAME object in a case-dependent order, twice
+        items = sorted(rb32.SLIP132.items(), key=lambda kv: (kv[1] * (i | 1)) % 9973)
+        for (typ, net, pp), v in items + items[:4]:
+            got = child.extended_private_key(version=v) if typ == "prv" else child.extended_public_key(version=v)
+            want = exp.xprv(v) if typ == "prv" else exp.xpub(v)
+            if got != want:
+                bad.append(("explicit_version_%s%s%d" % (typ, net, pp), want, got))
+                break
     # full 32-byte serialisation: the 78-byte payload's key field
     return ctx.judge("ckd_priv", not bad, case, exp.fields(), bad, cls=_cls(case),
                      mech="C01.ckd_priv." + (bad[0][0] if bad else ""))
@@ -240,6 +259,8 @@ def run(ctx):
                         tw["pfp"] = tw["pfp"] if tw["depth"] > 1 else b"\x01\x02\x03\x04"
                     case = tw
             case["reuse"] = True
+            case["via"] = rnd.choice(["ckd", "ckd", "derive_path", "generate_children", "wallet.by_path"])
+            case["all_versions"] = rnd.random() < 0.15
             recent.append(case)
             del recent[:-12]
             judge_ckd_priv(ctx, case)
